@@ -32,6 +32,13 @@ CLAIMED = {
              "serialised broadcasts resize the receiver) and replication of the containers iterated around collectives.",
         technique="SPMD collective matching + rank-taint + effect/sync-set agreement over clang AST/CFG (custom libTooling extractor, Python engines)",
         ref="DESIGN.md §3 C06"),
+    "C13": dict(
+        text="Static analysis of IndexContainer4 / TwoParticleGFContainer: the constant tables permutations4 (24 distinct permutations, sign = parity) are evaluated from their initialisers; every alias inserted by set() "
+             "carries the table entry whose permutation equals the permutation applied to the index quadruple and whose sign is its parity, only when the exchanged indices differ; ElementWithPermFreq::operator() "
+             "evaluates (n1,n2,n3,n1+n2-n3)[perm] times sign; every mutator keeps ElementsMap and NonTrivialElements paired (clear both, insert the stored element into both); bulk calls iterate their map completely.",
+        note="Holds for every call history because the rules quantify over all paths of every mutator. Value-level equality with a directly constructed TwoParticleGF additionally needs C02 and is not decided here.",
+        technique="constant-table evaluation + key-permutation matching + paired-state effect rule over clang AST/CFG (templates analysed through explicit instantiation)",
+        ref="DESIGN.md §3 C13"),
 }
 
 NOT_YET = {}
